@@ -62,8 +62,57 @@ mod verif_replay_receive_loop_mod {
         Some(ended && released)
     }
 
+    /// one fast-path PDU carrying one raw 32 bpp bitmap rectangle of 1x1 whose left coordinate is `tag`
+    fn bitmap_pdu(tag: u8) -> Vec<u8> {
+        let mut rect = vec![tag, 0, 0, 0, tag, 0, 0, 0, 1, 0, 1, 0, 32, 0, 0, 0, 4, 0];
+        rect.extend_from_slice(&[1, 2, 3, 4]);
+        let mut data = vec![1u8, 0, 1, 0];
+        data.extend_from_slice(&rect);
+        let mut body = vec![0x01u8, data.len() as u8, 0];
+        body.extend_from_slice(&data);
+        let mut wire = vec![0x00u8, (body.len() + 2) as u8];
+        wire.extend_from_slice(&body);
+        wire
+    }
+
+    /// a live session: three bitmap PDUs, then the GUI side clears the flag and one more PDU wakes the thread
+    fn live_session() -> Option<(Vec<u16>, bool, bool)> {
+        let (client_sock, mut server_sock) = UnixStream::pair().ok()?;
+        let fd = client_sock.as_raw_fd() as usize;
+        let x = x224::verif_new_x224(tpkt::Client::new(Link::new(Stream::Raw(client_sock))));
+        let mut g = global::Client::new(1007, 1003, 800, 600, KeyboardLayout::US, "verif");
+        g.verif_enter_data_state();
+        let client = Arc::new(Mutex::new(RdpClient { mcs: mcs::Client::new(x), global: g }));
+        let (tx, rx) = channel();
+        let sync = Arc::new(AtomicBool::new(true));
+        let handle = launch_rdp_thread(fd, client.clone(), sync.clone(), tx).ok()?;
+        let mut got = vec![];
+        for tag in 1u8..4 {
+            server_sock.write_all(&bitmap_pdu(tag)).ok()?;
+            match rx.recv_timeout(Duration::from_secs(3)) { Ok(b) => got.push(b.dest_left), Err(_) => break }
+        }
+        // while the server is silent the thread waits in select: the GUI thread must be able to take the client
+        thread::sleep(Duration::from_millis(300));
+        let free_while_waiting = client.try_lock().is_ok();
+        // the GUI side stops the session; the next server traffic wakes the thread, which must then end
+        sync.store(false, Ordering::Relaxed);
+        server_sock.write_all(&bitmap_pdu(9)).ok()?;
+        let (dtx, drx) = channel();
+        thread::spawn(move || { let _ = handle.join(); let _ = dtx.send(()); });
+        let ended = drx.recv_timeout(Duration::from_secs(4)).is_ok();
+        Some((got, free_while_waiting, ended))
+    }
+
     #[test]
     fn verif_replay_receive_loop() {
+        match live_session() {
+            None => { println!("replay infrastructure not usable here: no verdict"); return }
+            Some((got, free_while_waiting, ended)) => {
+                assert_eq!(got, vec![1u16, 2, 3], "bitmap events forwarded to the GUI for three bitmap PDUs");
+                assert!(free_while_waiting, "the receive thread holds the client lock while it waits for server traffic");
+                assert!(ended, "the receive thread did not end after the stop flag was cleared and the socket became readable");
+            }
+        }
         let ultimatum = vec![3u8, 0, 0, 9, 2, 0xf0, 0x80, 0x21, 0x80];
         let undecodable = vec![3u8, 0, 0, 9, 2, 0xf0, 0x80, 0xff, 0xff];
         let cases: Vec<(&str, Vec<u8>, bool)> = vec![
